@@ -3,6 +3,7 @@ mod crash;
 mod fault;
 mod jfile;
 mod journal;
+mod mt;
 mod store;
 mod txreplay;
 mod util;
@@ -121,6 +122,27 @@ fn main() {
             std::fs::create_dir_all(&a.out_dir).ok();
             let out = txreplay::run_tx_replay(&a);
             println!("{}", serde_json::to_string(&json!({"result": out.to_json()})).unwrap());
+        }
+        "mt" => {
+            let a = mt::MtArgs {
+                out_dir: PathBuf::from(arg(&args, "--out").unwrap_or("/verif/work".into())),
+                seed: arg(&args, "--seed").and_then(|s| s.parse().ok()).unwrap_or(1),
+                runs: arg(&args, "--runs").and_then(|s| s.parse().ok()).unwrap_or(10),
+                threads: arg(&args, "--threads").and_then(|s| s.parse().ok()).unwrap_or(4),
+                ops: arg(&args, "--ops").and_then(|s| s.parse().ok()).unwrap_or(200),
+                workers: arg(&args, "--workers").and_then(|s| s.parse().ok()).unwrap_or(2),
+                snapshots: !args.iter().any(|x| x == "--no-snapshots"),
+            };
+            std::fs::create_dir_all(&a.out_dir).ok();
+            let out = if args.iter().any(|x| x == "--tx") { mt::run_mt_tx(&a) } else { mt::run_mt(&a) };
+            println!("{}", serde_json::to_string(&json!({"result": out.to_json()})).unwrap());
+        }
+        "forced-torn" => {
+            let root = util::scratch_root();
+            let dir = util::fresh_dir(&root, "torn");
+            let r = mt::forced_torn_batch(&dir);
+            let _ = std::fs::remove_dir_all(&root);
+            println!("{}", serde_json::to_string(&json!({"result": match r { Ok(v) => v, Err(e) => json!({"error": e}) }})).unwrap());
         }
         _ => {
             eprintln!("usage: vh replay --file F --out DIR --property Cxx [--seed N] ...");
